@@ -12,6 +12,7 @@ package harness
 // replay file records those four values instead of 2n operations.
 
 import (
+	"bytes"
 	"fmt"
 	"strconv"
 	"testing"
@@ -70,6 +71,63 @@ func scaleKey(k Kind, i int) []byte {
 	return b
 }
 
+// combKey returns the i-th key of a comb: at every depth one branch byte (the spine) leads on to
+// the next level and the 254 other non-zero byte values are leaves, so the tree is as deep as the
+// key is long AND every node on the spine is a full node256 - the shape with the most pending
+// siblings per step of a traversal. Numeric kinds: 8 levels (2032 keys); byte strings: 14 levels.
+func combLevels(k Kind) int {
+	if nk, ok := k.(*numKind); ok {
+		return nk.width / 8
+	}
+	if ck, ok := k.(*compoundKind); ok {
+		return ck.fields[len(ck.fields)-1].width / 8
+	}
+	return 14
+}
+
+func combKey(k Kind, i int, spine byte) []byte {
+	level, j := i/254, i%254
+	var others []byte
+	for b := 1; b < 256; b++ {
+		if byte(b) != spine {
+			others = append(others, byte(b))
+		}
+	}
+	path := bytes.Repeat([]byte{spine}, level)
+	path = append(path, others[j%len(others)])
+	switch kk := k.(type) {
+	case *numKind:
+		w := kk.width / 8
+		full := make([]byte, w)
+		copy(full, path)
+		var v uint64
+		for _, b := range full {
+			v = v<<8 | uint64(b)
+		}
+		if kk.class == 'i' {
+			v ^= 1 << uint(kk.width-1) // so that the encoded (sign-flipped) bytes form the comb
+		}
+		if kk.class == 'f' {
+			return nil
+		}
+		return k.Canon(rawOf(v))
+	case *compoundKind:
+		last := kk.fields[len(kk.fields)-1]
+		var raw []byte
+		for range kk.fields[:len(kk.fields)-1] {
+			raw = append(raw, rawOf(7)...)
+		}
+		raw = append(raw, combKey(last, i, spine)...)
+		if kk.hasStr {
+			raw = append(raw, 's')
+		}
+		return raw
+	case *collKind:
+		return nil
+	}
+	return path
+}
+
 func gcd(a, b int) int {
 	for b != 0 {
 		a, b = b, a%b
@@ -78,34 +136,53 @@ func gcd(a, b int) int {
 }
 
 // scaleOps calls emit for every operation of the scale history.
-func scaleOps(k Kind, n, mult, off int, emit func(Op) error) error {
+func scaleOps(k Kind, n, mult, off int, spine int, iterAudits bool, emit func(Op) error) error {
+	keyOf := func(i int) []byte { return scaleKey(k, i) }
+	if spine >= 0 {
+		keyOf = func(i int) []byte { return combKey(k, i, byte(spine)) }
+	}
 	for gcd(mult, n) != 1 {
 		mult++
 	}
 	marks := map[int]bool{255: true, 256: true, 257: true, 65535: true, 65536: true, 65537: true, n: true, n / 2: true}
 	audit := func() error {
-		for _, a := range []string{"sizecheck", "sweep", "scan", "extremes", "topbottom"} {
+		for _, a := range []string{"sizecheck", "sweep", "scan", "extremes", "topbottom", "iteraudit"} {
+			if (a == "iteraudit") != iterAudits {
+				continue // the iteration audits are C14's, the others belong to C01/C02/C05/C06
+			}
 			if err := emit(Op{Op: a, Note: "scale"}); err != nil {
 				return err
+			}
+		}
+		if !iterAudits {
+			return nil
+		}
+		// sequences abandoned right at the start and right before the end, nested and with calls inside
+		for _, m := range []string{"all", "backward", "topk", "bottomk"} {
+			for _, o := range []Op{{Stop: 0, Re: 1}, {Stop: 1, Re: 1, In: 2}, {Stop: -1, Re: 1, Btw: 2}} {
+				o.Op, o.M, o.N, o.Note = "iter", m, 1<<40, "scale"
+				if err := emit(o); err != nil {
+					return err
+				}
 			}
 		}
 		return nil
 	}
 	for i := 0; i < n; i++ {
 		idx := (i*mult + off) % n
-		if err := emit(Op{Op: "insert", K: scaleKey(k, idx), V: idx + 1}); err != nil {
+		if err := emit(Op{Op: "insert", K: keyOf(idx), V: idx + 1}); err != nil {
 			return err
 		}
 		if err := emit(Op{Op: "size"}); err != nil {
 			return err
 		}
 		if i%5 == 0 {
-			if err := emit(Op{Op: "search", K: scaleKey(k, (idx*7+3)%n)}); err != nil {
+			if err := emit(Op{Op: "search", K: keyOf((idx*7 + 3) % n)}); err != nil {
 				return err
 			}
 		}
 		if i%1001 == 0 {
-			if err := emit(Op{Op: "insert", K: scaleKey(k, idx), V: idx + 2, Note: "overwrite"}); err != nil {
+			if err := emit(Op{Op: "insert", K: keyOf(idx), V: idx + 2, Note: "overwrite"}); err != nil {
 				return err
 			}
 		}
@@ -121,14 +198,14 @@ func scaleOps(k Kind, n, mult, off int, emit func(Op) error) error {
 	}
 	for i := 0; i < n; i++ {
 		idx := (i*mult2 + off/2) % n
-		if err := emit(Op{Op: "delete", K: scaleKey(k, idx)}); err != nil {
+		if err := emit(Op{Op: "delete", K: keyOf(idx)}); err != nil {
 			return err
 		}
 		if err := emit(Op{Op: "size"}); err != nil {
 			return err
 		}
 		if i%1001 == 0 {
-			if err := emit(Op{Op: "delete", K: scaleKey(k, idx), Note: "absent"}); err != nil {
+			if err := emit(Op{Op: "delete", K: keyOf(idx), Note: "absent"}); err != nil {
 				return err
 			}
 		}
@@ -154,6 +231,10 @@ func scaleParams(tr *Trace) (n, mult, off int, ok bool) {
 // replayScale runs the scale history a trace describes.
 func replayScale(tr *Trace) error {
 	n, mult, off, _ := scaleParams(tr)
+	spine := -1
+	if sp := tr.Params["scale_spine"]; sp != "" {
+		spine, _ = strconv.Atoi(sp)
+	}
 	spec := specByID(tr.Property)
 	if spec == nil {
 		return fmt.Errorf("no history spec for property %q", tr.Property)
@@ -168,7 +249,7 @@ func replayScale(tr *Trace) error {
 	cfg.ExcludeKF = false // scale keys are free of the known findings by construction (fixed length, no 0x00, distinct primary weights)
 	eng := NewEngine(&cfg, []Kind{kind})
 	nops := 0
-	err = scaleOps(kind, n, mult, off, func(op Op) error {
+	err = scaleOps(kind, n, mult, off, spine, tr.Property == "C14", func(op Op) error {
 		nops++
 		return eng.Apply(op)
 	})
@@ -176,7 +257,7 @@ func replayScale(tr *Trace) error {
 		return nil
 	}
 	if v, ok := err.(*Violation); ok {
-		v.Msg = fmt.Sprintf("scale history (kind %s, n=%d, mult=%d, off=%d) at op #%d: %s", tr.Kinds[0], n, mult, off, nops, v.Msg)
+		v.Msg = fmt.Sprintf("scale history (kind %s, n=%d, mult=%d, off=%d, comb spine=%d) at op #%d: %s", tr.Kinds[0], n, mult, off, spine, nops, v.Msg)
 	}
 	return err
 }
@@ -191,13 +272,22 @@ func runScale(t *testing.T, id string) {
 		if kn == "u16" {
 			n = min(n, 65536)
 		}
-		tr := &Trace{Property: id, Kinds: []string{kn}, Params: map[string]string{
-			"scale_n": strconv.Itoa(n), "scale_mult": strconv.Itoa(drawInt(rt, 1, 9973, "mult")), "scale_off": strconv.Itoa(drawInt(rt, 0, n-1, "off"))}}
+		shape := "dense"
+		params := map[string]string{}
+		if kind := MustKind(kn); drawInt(rt, 0, 2, "comb") == 0 && combKey(kind, 0, 1) != nil {
+			// comb: deep and wide at once
+			shape = "comb"
+			n = combLevels(kind) * 254
+			params["scale_spine"] = strconv.Itoa(pick(rt, []int{0x01, 0xff, 0x80, 0x01, 0xff}, "spine"))
+		}
+		params["scale_n"], params["scale_mult"], params["scale_off"] = strconv.Itoa(n), strconv.Itoa(drawInt(rt, 1, 9973, "mult")), strconv.Itoa(drawInt(rt, 0, n-1, "off"))
+		tr := &Trace{Property: id, Kinds: []string{kn}, Params: params}
 		err := replayScale(tr)
 		stats.AddBulk(1, 1, "scale_histories")
 		stats.mu.Lock()
 		stats.Labels["scale_"+kn]++
 		stats.Labels["scale_entries_"+strconv.Itoa(n)]++
+		stats.Labels["scale_shape_"+shape]++
 		stats.mu.Unlock()
 		if err != nil {
 			tr.Failure = err.Error()
@@ -211,3 +301,4 @@ func TestScaleC01(t *testing.T) { runScale(t, "C01") }
 func TestScaleC02(t *testing.T) { runScale(t, "C02") }
 func TestScaleC05(t *testing.T) { runScale(t, "C05") }
 func TestScaleC06(t *testing.T) { runScale(t, "C06") }
+func TestScaleC14(t *testing.T) { runScale(t, "C14") }
